@@ -8,8 +8,10 @@ package harness
 import (
 	"encoding/json"
 	"fmt"
+	"runtime"
 	"sort"
 	"sync"
+	"sync/atomic"
 	"testing"
 	"time"
 
@@ -30,10 +32,17 @@ type c19eCase struct {
 	Transport string     `json:"transport"`
 	LatencyMs int        `json:"latency_ms"` // one-way link latency
 	Emits     []c19eEmit `json:"emits"`
+	// upgrade only, forced schedule: SwapBurst events are emitted by the server from the yield point right before it swaps the transports, and
+	// the first of them to reach the polling transport's Send is held at its entry for ParkSpins scheduler yields (no virtual time passes)
+	SwapBurst int `json:"swap_burst"`
+	ParkSpins int `json:"park_spins"`
 }
 
 func evalC19e(c c19eCase) (f *Failure, nontrivial bool) {
 	class := fmt.Sprintf("%s,latency=%d", c.Transport, c.LatencyMs)
+	if c.SwapBurst > 0 {
+		class += ",burst-before-swap"
+	}
 	fail := func(clause, detail string) *Failure {
 		return &Failure{Property: "C19", Check: c19eCheck, Clause: clause, Class: class, Detail: detail, Case: c}
 	}
@@ -58,8 +67,46 @@ func evalC19e(c c19eCase) (f *Failure, nontrivial bool) {
 		cli := r.manager(c01Transports(c.Transport), nil).Socket("/", nil)
 		cli.OnEvent("e", func(tok int) { mu.Lock(); arrived[tok] = time.Since(start); mu.Unlock() })
 		cli.OnEvent("b", func(tok int, _ Bin) { mu.Lock(); arrived[tok] = time.Since(start); mu.Unlock() })
+		sent := map[int]time.Duration{}
+		dirOf := map[int]string{}
+		tok := 0
+		if c.Transport == "upgrade" && c.SwapBurst > 0 {
+			var swapImminent, parked atomic.Bool
+			var sends atomic.Int64
+			r.setPoint(func(site string) {
+				switch site {
+				case "eio.serverSocket.upgradeTo:before-swap":
+					mu.Lock()
+					s := ss
+					mu.Unlock()
+					if s == nil || !cli.Connected() || !swapImminent.CompareAndSwap(false, true) {
+						return
+					}
+					for b := 0; b < c.SwapBurst; b++ {
+						mu.Lock()
+						tok++
+						k := tok
+						sent[k] = time.Since(start)
+						dirOf[k] = "s2c from the yield point before the swap"
+						mu.Unlock()
+						go s.Emit("e", k)
+					}
+					for i := 0; i < 50000 && !parked.Load(); i++ {
+						runtime.Gosched()
+					}
+				case "polling.ServerTransport.Send:enter":
+					if swapImminent.Load() && sends.Add(1) == 1 {
+						parked.Store(true)
+						for i := 0; i < c.ParkSpins; i++ {
+							runtime.Gosched()
+						}
+					}
+				}
+			})
+		}
 		cli.Connect()
 		settle(3 * time.Second)
+		r.setPoint(nil)
 		mu.Lock()
 		s := ss
 		mu.Unlock()
@@ -67,15 +114,12 @@ func evalC19e(c c19eCase) (f *Failure, nontrivial bool) {
 			res = fail("rig-connect", "not connected")
 			return
 		}
-		sent := map[int]time.Duration{}
-		dirOf := map[int]string{}
-		tok := 0
 		for _, e := range c.Emits {
 			time.Sleep(time.Duration(e.GapUs) * time.Microsecond)
 			for b := 0; b < max(e.Burst, 1); b++ {
+				mu.Lock()
 				tok++
 				k, e := tok, e
-				mu.Lock()
 				sent[k] = time.Since(start)
 				dirOf[k] = e.Dir
 				mu.Unlock()
@@ -130,11 +174,15 @@ func evalC19e(c c19eCase) (f *Failure, nontrivial bool) {
 	for _, e := range c.Emits {
 		n += max(e.Burst, 1)
 	}
-	return res, n >= 3 && c.Transport != "websocket"
+	return res, (n >= 3 || c.SwapBurst > 0) && c.Transport != "websocket"
 }
 
 func genC19eCase(t *rapid.T) c19eCase {
 	c := c19eCase{Transport: rapid.SampledFrom([]string{"polling", "polling", "websocket", "upgrade"}).Draw(t, "transport"), LatencyMs: rapid.SampledFrom([]int{0, 0, 1, 20}).Draw(t, "latency")}
+	if c.Transport == "upgrade" {
+		c.SwapBurst = rapid.SampledFrom([]int{0, 1, 3}).Draw(t, "swapBurst")
+		c.ParkSpins = rapid.SampledFrom([]int{0, 2000, 20000}).Draw(t, "parkSpins")
+	}
 	for i, n := 0, rapid.IntRange(1, 12).Draw(t, "emits"); i < n; i++ {
 		c.Emits = append(c.Emits, c19eEmit{
 			GapUs:  rapid.SampledFrom([]int{0, 1, 50, 1000, 1000, 40000, 100000, 1000000, 24_999_000, 25_000_000, 25_001_000, 31_000_000}).Draw(t, "gap"),
